@@ -55,6 +55,14 @@ func tierBounds(thorough bool) bounds {
 
 func buildUnits(b bounds) []unit {
 	var us []unit
+	// chains first: they are cheap and must not be the part a budget cap cuts off
+	for _, pat := range b.chainPattern {
+		for _, d := range b.chainDepths {
+			for _, leaf := range []byte("RTPE") {
+				us = append(us, unit{"chain", chainTree(d, pat, leaf).String(), 0})
+			}
+		}
+	}
 	for n := 1; n <= b.maxNodes; n++ {
 		for _, t := range enumTrees(n) {
 			rots := 1
@@ -72,13 +80,6 @@ func buildUnits(b bounds) []unit {
 		for _, t := range enumTreesKinds(n, "dimhtuvw") {
 			if strings.ContainsAny(t.String(), "uvw") {
 				us = append(us, unit{"tree", t.String(), n % 3})
-			}
-		}
-	}
-	for _, pat := range b.chainPattern {
-		for _, d := range b.chainDepths {
-			for _, leaf := range []byte("RTPE") {
-				us = append(us, unit{"chain", chainTree(d, pat, leaf).String(), 0})
 			}
 		}
 	}
@@ -368,7 +369,19 @@ func main() {
 	units := buildUnits(b)
 
 	if fw.IsChild() {
+		var deadline time.Time
+		if v := os.Getenv("C20_DEADLINE_UNIX"); v != "" {
+			var sec int64
+			fmt.Sscan(v, &sec)
+			deadline = time.Unix(sec, 0)
+		}
 		fw.ChildLoop(func(i int) string {
+			// the supervisor polls its Stop function only when it (re)starts a child, so the internal
+			// budget is enforced here: units that would start after the deadline are skipped and
+			// reported as such (=> exhaustive:false, exit 0)
+			if !deadline.IsZero() && time.Now().After(deadline) {
+				return "SKIPPED"
+			}
 			r := runUnit(units[i], b)
 			out, _ := json.Marshal(r)
 			// base64: the supervisor protocol rewrites "\\n" sequences, which would corrupt JSON escapes
@@ -384,16 +397,20 @@ func main() {
 	outcomes := fw.NewCounter()
 	samples := fw.NewSampler(16)
 	var evals, distinct int64
-	var nTree, nChain int64
+	var nTree, nChain, skipped int64
 	t0 := time.Now()
 	done := fw.Supervise(fw.SupOpts{N: len(units), Workers: runtime.NumCPU(), CaseTimeout: 300 * time.Second, Mode: run.Tier,
-		Env: []string{"GOMAXPROCS=1", "GOGC=400"}, Stop: run.Expired},
+		Env: []string{"GOMAXPROCS=1", "GOGC=400", fmt.Sprintf("C20_DEADLINE_UNIX=%d", run.Deadline.Unix())}, Stop: run.Expired},
 		func(i int, res string, crash *fw.Crash) {
 			u := units[i]
 			if crash != nil {
 				outcomes.Inc("unit-" + crash.Kind)
 				run.Violation("process-"+crash.Kind+":"+u.Fam, "the process running all cases of this tree died: "+fw.FirstLines(crash.Stderr, 6),
 					caseID{Tree: u.Tree, Rot: u.Rot, Engine: "both", History: "all"})
+				return
+			}
+			if res == "SKIPPED" {
+				skipped++
 				return
 			}
 			var r unitResult
@@ -422,7 +439,7 @@ func main() {
 			}
 			samples.Add(r.Sample)
 		})
-	if done < len(units) {
+	if done < len(units) || skipped > 0 {
 		run.Capped("budget")
 	}
 	byN := map[string]int{}
@@ -443,7 +460,7 @@ func main() {
 		Bounds: map[string]any{"max_nodes": b.maxNodes, "edge_kinds": "d,i,m,h,t,r", "tail_form_family": fmt.Sprintf("edge kinds d,i,m,h,t,u,v,w,r; trees with <= %d nodes using u, v or w", b.tailFormNodes), "outcomes": "R,T,P,E,S", "signature_rotations_up_to_nodes": b.rotUpTo,
 			"chain_depths": "1..40", "chain_patterns": b.chainPattern, "chain_leaves": "R,T,P,E", "histories": b.histories, "all_listener_sets_under_every_history_up_to_nodes": b.fullHistoryUpTo, "engines": []string{"interpreter", "compiler"},
 			"listener_sets": "every subset of the nodes + all-functions factory (trees); full/even/odd/root/leaf/all-functions (chains)"},
-		Extra: map[string]any{"units": len(units), "units_done": done, "tree_units": nTree, "chain_units": nChain, "units_by_size": byN, "explore_wall_s": time.Since(t0).Seconds()},
+		Extra: map[string]any{"units": len(units), "units_done": int64(done) - skipped, "tree_units": nTree, "chain_units": nChain, "units_by_size": byN, "explore_wall_s": time.Since(t0).Seconds()},
 	}, []string{
 		"the stack iterator is expected to list the frames of the current api.Function.Call only (a host function that re-enters the guest starts a new call boundary), on both engines",
 		"values are compared after masking to the value type's width (upper bits of 32-bit slots are not part of the value)",
